@@ -18,7 +18,7 @@ SHAPES = [(1, 1), (1, 1), (2, 1), (3, 1), (1, 2), (1, 3), (2, 2), (2, 3)]
 RULE = ("Generated OCP (all sampling methods/grids/horizons) and a generated expression of shape 1x1, n x 1, 1 x n or n x m over states, quadrature states, controls, "
         "algebraic values, time, parameters and variables of every kind, T and t0; sampled on control, control-/-control, integrator, integrator+refine 1..4 and "
         "integrator_roots. Oracles: sample(e)[i] == e(sample(ingredients)[i], time[i]) at 2 random decision vectors; len(time) == number of sampled points; "
-        "parameters sample to their set values; raw per-interval/per-node ingredients are distinct decision variables; sol.sample / sol.value of a zero-iteration solve equal the "
+        "parameters sample to their set values; raw per-interval/per-node ingredients (and states/algebraic values at every collocation point) are distinct decision variables; sol.sample / sol.value of a zero-iteration solve equal the "
         "symbolic map at the solver's vector with shape (time, *non-singleton dims) and entry [i,r,c] = element (r,c). "
         "Non-trivial = non-scalar expression, or grid != control, or per-interval/algebraic/quadrature ingredient; distinct = SHA-1 of the case JSON.")
 ASSUMPTIONS = ["raw ingredient samples on the control / collocation grids are tied to the NLP's own rows by C01/C02"]
@@ -26,7 +26,7 @@ ASSUMPTIONS = ["raw ingredient samples on the control / collocation grids are ti
 
 @st.composite
 def strategy_(draw):
-    sp = draw(gen.base_ocp(quad=True, discrete_prob=1))
+    sp = draw(gen.base_ocp(quad=True, discrete_prob=1, alg_odds=(2, 3)))
     m = sp["method"]
     dc = m["cls"] == "DC"
     discrete = bool(sp.get("next"))
@@ -34,7 +34,7 @@ def strategy_(draw):
     if not discrete:
         grids.append(("refine", 3))
     if dc:
-        grids.append(("integrator_roots", 3))
+        grids.append(("integrator_roots", 6 if sp.get("algebraics") else 3))
     gname = gen.weighted(draw, grids)
     kw = {}
     if gname == "refine":
@@ -44,14 +44,16 @@ def strategy_(draw):
     quads = gen.leaves_of([d for d in sp["states"] if d.get("quad")])
     if quads and gname in ("control", "control-", "-control", "integrator") and (not kw or not dc):
         leaves = leaves + quads
-    if dc and gname == "integrator_roots":
-        leaves = leaves + gen.leaves_of(sp.get("algebraics", []))
+    algs = gen.leaves_of(sp.get("algebraics", [])) if dc and gname == "integrator_roots" else []
+    leaves = leaves + algs
     r, c = draw(st.sampled_from(SHAPES))
     exprs = []
     for _ in range(r * c):
         e = draw(gen.free_expr(leaves, depth=2))
         if draw(st.integers(0, 5)) == 0:
             e = ["+", e, ["*", E.C(draw(gen.small())), draw(st.sampled_from([["T"], ["t0"], ["tf"]]))]]
+        if algs and draw(st.booleans()):
+            e = [draw(st.sampled_from(["+", "*"])), e, draw(st.sampled_from(algs))]
         exprs.append(e)
     # a non-signal expression for value()
     globs = gen.leaves_of([d for d in sp["params"] + sp["vars"] if d.get("grid", "") == ""])
@@ -245,6 +247,22 @@ def check(case, ctx):
             want = (N + 1) if pernode else N
             if distinct != want or (not pernode and sets[N] != sets[N - 1]):
                 fails.append(Fail("raw-structure", dict(feats, kind=d["kind"], vgrid=d.get("grid")), {"name": d["name"], "distinct_columns": distinct, "expected": want}))
+    if m["cls"] == "DC" and grid == "integrator_roots":
+        # every collocation point carries its own state and algebraic value: raw samples there are pairwise different decision variables
+        allv = ca.vertcat(nlp.x, nlp.inactive)
+        for d in [x for x in sp["states"] if not x.get("quad")] + sp.get("algebraics", []):
+            n = d["name"]
+            d = B.decl[n]
+            numel = d["rows"] * d["cols"]
+            raw = ocp.sample(ca.vec(B.syms[n]), grid=grid)[1]
+            J = np.array(ca.DM(ca.jacobian(ca.vec(ca.MX(raw)), allv).sparsity(), 1))
+            if not J.size:
+                continue
+            J = J.reshape((npts, numel, allv.numel()))
+            sets = [frozenset(np.nonzero(J[k].sum(axis=0))[0]) for k in range(npts)]
+            if len(set(sets)) != npts:
+                dup = [k for k in range(npts) if sets[k] in sets[:k]]
+                fails.append(Fail("raw-structure-roots", dict(feats, kind=d["kind"]), {"name": n, "distinct_points": len(set(sets)), "expected": npts, "first_repeated_point": dup[:1]}))
     if fails:
         return fails
     # numeric read-back
